@@ -40,6 +40,17 @@ func Snapshot() []Goroutine {
 	return parseStacks(string(buf))
 }
 
+// ParseDump parses a goroutine dump (as returned in the witness of WaitUntil) back into goroutines.
+func ParseDump(s string) []Goroutine { return parseStacks(s) }
+
+// Trunc shortens a witness for storage.
+func Trunc(s string, n int) string {
+	if len(s) > n {
+		return s[:n] + "\n...truncated"
+	}
+	return s
+}
+
 func parseStacks(s string) []Goroutine {
 	var out []Goroutine
 	for _, blk := range strings.Split(s, "\n\n") {
@@ -258,7 +269,7 @@ func dump(snap []Goroutine) string {
 		}
 		b.WriteString(g.Raw)
 		b.WriteString("\n\n")
-		if b.Len() > 24000 {
+		if b.Len() > 400000 {
 			b.WriteString("...truncated\n")
 			break
 		}
